@@ -241,7 +241,8 @@ def r05_3(ck):
                    None, appl[0])
         if al is not None and isinstance(al.iter, ast.Name):
             lst = al.iter.id
-            ds = local_defs(f.node).get(lst, [])
+            ds = [d for d in local_defs(f.node).get(lst, [])
+                  if d.kind != 'mutate']
             ok = bool(ds) and all(within(d.stmt, outer) and isinstance(
                 d.value, ast.List) and not d.value.elts for d in ds)
             ck.require(ok, 'R05.3', f, ds[0].stmt if ds else lst,
